@@ -27,6 +27,7 @@ type half struct {
 	stall    bool  // virtual time: a read that would block with an armed deadline times out at once
 	werr     error // injected write error
 	waiters  int   // readers blocked because the queue is empty
+	window   int   // > 0: a writer blocks while this many octets are unread (a peer that stops reading stalls it)
 }
 
 func newHalf() *half { h := &half{}; h.cond = sync.NewCond(&h.mu); return h }
@@ -39,6 +40,15 @@ func (h *half) write(p []byte) (int, error) {
 	}
 	if h.wclosed || h.rclosed {
 		return 0, io.ErrClosedPipe
+	}
+	for h.window > 0 && len(h.buf) >= h.window {
+		h.cond.Wait()
+		if h.werr != nil {
+			return 0, h.werr
+		}
+		if h.wclosed || h.rclosed {
+			return 0, io.ErrClosedPipe
+		}
 	}
 	h.buf = append(h.buf, p...)
 	h.written += int64(len(p))
@@ -56,6 +66,9 @@ func (h *half) read(p []byte) (int, error) {
 		if len(h.buf) > 0 {
 			n := copy(p, h.buf)
 			h.buf = h.buf[n:]
+			if h.window > 0 {
+				h.cond.Broadcast()
+			}
 			return n, nil
 		}
 		if h.rerr != nil {
@@ -131,6 +144,15 @@ func (c *Conn) Close() error {
 		}
 	})
 	return nil
+}
+
+// SetPeerWindow bounds what the peer may write to this end without it being read (0 = unbounded): like a
+// TCP receive window, a peer writing to an end that has stopped reading eventually blocks.
+func (c *Conn) SetPeerWindow(n int) {
+	c.r.mu.Lock()
+	c.r.window = n
+	c.r.cond.Broadcast()
+	c.r.mu.Unlock()
 }
 
 // PeerBlockedInRead tells whether the peer has consumed everything written so far and is blocked in Read
